@@ -141,7 +141,7 @@ func init() {
 	}
 	checks["c10"] = checkDef{"C10",
 		"adaptive programs on an object-lock bucket (versioned, and unversioned = gateway without a versioning directory), owner root/userplus/admin, a policy that grants two users everything with or without s3:BypassGovernanceRetention: put (with legal-hold / retention headers), PutObjectRetention (GOVERNANCE/COMPLIANCE, future and past dates, by version), PutObjectLegalHold on/off, delete (± bypass header, by version), batch delete, copy onto, PutObjectLockConfiguration (enabled / not enabled, default retention), PutBucketVersioning, DeleteBucket, by root, admin, owner and other users; finally ListObjectVersions, GET and GetObjectRetention of every version ever issued. Compared with Model.Gw.step. Non-trivial = program reaches the bucket; distinct by op list.",
-		[]checkFn{fam("lock-versioned", true, 1001, 60, 3000), fam("lock-unversioned", false, 1002, 40, 2000), c10CompleteOntoLocked}}
+		[]checkFn{fam("lock-versioned", true, 1001, 200, 4000), fam("lock-unversioned", false, 1002, 120, 3000), c10CompleteOntoLocked}}
 }
 
 // c10CompleteOntoLocked: the one destructive route that performs no object-lock check on this
